@@ -91,14 +91,30 @@ def check_steps(s, sl):
     return []
 
 
+BAD_TEXTS = ["x", "", "____", "  ", "<p></p>", "a__ b", "<script>x</script>", "\n"]
+
+
 def check_bad(bad):
-    try:
-        clean_text("x", [bad])
-    except ValueError:
-        return []
-    except Exception as e:  # noqa: BLE001
-        return [("unknown-step-other-exception", f"{bad!r}: {short_exc(e)}")]
-    return [("unknown-step-accepted", f"clean_text('x', [{bad!r}]) did not raise ValueError")]
+    """An unknown step raises ValueError wherever it stands in the list and whatever the text (also when an earlier
+    step has already emptied it): all lists of <= 3 steps with the unknown name at each position x 8 texts."""
+    res = []
+    good = STEPS + ["html"]
+    lists = [[bad]]
+    for g in good:
+        lists += [[g, bad], [bad, g]]
+        for g2 in good:
+            lists += [[g, g2, bad], [g, bad, g2], [bad, g, g2]]
+    for text in BAD_TEXTS:
+        for sl in lists:
+            try:
+                out = clean_text(text, list(sl))
+            except ValueError:
+                continue
+            except Exception as e:  # noqa: BLE001
+                res.append(("unknown-step-other-exception", f"clean_text({text!r}, {sl!r}): {short_exc(e)}"))
+                continue
+            res.append(("unknown-step-accepted", f"clean_text({text!r}, {sl!r}) returned {out!r} instead of raising ValueError"))
+    return res[:5]
 
 
 def dec(t):
@@ -154,6 +170,13 @@ def check_html(doc, want):
     return res
 
 
+# documents without any visible text node (the parser sees no element at all in the first five) and comments next to text
+HTML_EDGE = [
+    ("", ""), (" ", ""), ("\n\t ", ""), ("<!-- c -->", ""), (" <!-- c --> ", ""), ("<div><!-- c --></div>", ""), ("<br>", ""), ("<p></p>", ""),
+    ("<script>x</script>", ""), ("<p>x<!-- c -->y</p>", "x y"), ("<!-- c -->x", "x"), ("<p>x</p><!-- c -->", "x"),
+]
+
+
 def replay(case):
     k = case["kind"]
     if k == "string":
@@ -205,6 +228,8 @@ def run_shard(sh):
     if sh["part"] == "bad":
         for b in BAD:
             record({"kind": "bad", "bad": b}, h64(repr(b)), check_bad(b), True)
+        for doc, want in HTML_EDGE:
+            record({"kind": "html", "doc": doc, "want": want}, h64("E" + doc), check_html(doc, want), True)
         return st
     if sh["part"] == "strings":
         if sh["prefix"] is None:
